@@ -63,7 +63,7 @@ def _case(rng, i, home, size, feats=None, vary=True, events=False):
     g = G.ProgramGen(rng, home, size, feats, events)
     prog = g.program()
     return {'home': home, 'prog': prog, 'style': rng.randint(0, 2 ** 30), 'vary': vary,
-            'via_model': rng.random() < 0.15, 'events': events}
+            'via_model': rng.random() < 0.15, 'events': events, 'gstats': dict(g.stats)}
 
 
 FOCUS = [['assign'], ['assign', 'array'], ['assign', 'if'], ['assign', 'while', 'break', 'continue'], ['create', 'delete'],
@@ -95,7 +95,7 @@ def generate(ctx, n_quick=1350, multi=True):
         common = r.random() < 0.5
         g = G.ProgramGen(r, 'common' if common else 'function', r.randint(1, 6), None, r.random() < 0.3)
         yield {'multi': True, 'home': 'function', 'homes': list(MULTI_ALL if common else MULTI_PARAM), 'prog': g.program(),
-               'style': r.randint(0, 2 ** 30), 'vary': r.random() < 0.7}
+               'style': r.randint(0, 2 ** 30), 'vary': r.random() < 0.7, 'gstats': dict(g.stats)}
     rng = ctx.rng.fork('random')
     n = ctx.pick(n_quick, 40000)
     maxsize = ctx.pick(10, 25)
@@ -161,7 +161,8 @@ def run_multi(case):
             break
     return {'obs': Sym('multi'), 'd_fail': fails[:3], 'nontrivial': True,
             'key': 'multi:' + hashlib.sha1(body.encode()).hexdigest()[:16],
-            'stats': {'multi_action_models': 1, 'multi_actions': len(case['homes'])}}
+            'stats': dict({'multi_action_models': 1, 'multi_actions': len(case['homes'])},
+                          **dict(('gen_' + k, v) for k, v in (case.get('gstats') or {}).items()))}
 
 
 def run_impl(case):
@@ -211,8 +212,20 @@ def run_impl(case):
     nstm = G.count_statements(case['prog'])
     stats = {'home_' + case['home']: 1, 'statements': nstm, 'tokens': len(toks)}
     _kind_stats(case['prog'], stats)
+    _gen_stats(case, text1, stats)
     return {'obs': [toks, c2, c1, Sym('T')], 'd_fail': fails[:3], 'nontrivial': nstm >= 2 and len(toks) >= 12,
             'key': case['home'] + ':' + hashlib.sha1(text1.encode()).hexdigest()[:16], 'stats': stats}
+
+
+def _gen_stats(case, text, stats):
+    """what the generator did for this case (ProgramGen.stats) and surface features of the rendered text"""
+    for k, v in (case.get('gstats') or {}).items():
+        stats['gen_' + k] = stats.get('gen_' + k, 0) + v
+    stats.update(G.text_stats(text))
+    if case.get('events'):
+        stats['bodies_with_event_statements_enabled'] = 1
+    if case.get('via_model'):
+        stats['via_prebuild_model'] = 1
 
 
 def _kind_stats(prog, stats):
